@@ -333,7 +333,7 @@ func c09Exec(plan *Plan, st *Stats) *Violation {
 		st.fault("after_neighbours")
 		st.fault("global_rand_draws")
 		st.fault("clock_offset")
-		if planHasFaults(plan) && strings.Contains(base, "|error|") {
+		if planHasFaults(plan) && strings.Contains(base, " error|") {
 			st.probe("trace_with_error_texts")
 		}
 		for _, o := range plan.Ops {
